@@ -9,9 +9,10 @@ ASSUME = ["user actions give the file they write a current modification time (lo
 
 WIDE = "Edit,Touch,DeleteArt,Truncate,StripKey,ResaveArt,Replace,MakeCsr,EditProfile,Expire"
 ISSUER = "Edit,Touch,DeleteArt,Truncate,StripKey,ResaveArt,Replace,MakeCsr,SetIssuer"      # + the user edits the issuer relation
-FULL = WIDE + ",SetIssuer,RemoveConfig,AddConfig,RemoveProfile,AddProfile"
+FULL = WIDE + ",SetIssuer,RemoveConfig,AddConfig,RemoveProfile,AddProfile,SetProfile"
 PROFILE = "EditProfile,RemoveProfile,AddProfile,Edit,DeleteArt"                   # + the shared profile file deleted and put back
 CONFIG = "Edit,DeleteArt,StripKey,SetIssuer,RemoveConfig,AddConfig"               # + configurations deleted and put back
+SWITCH = "SetProfile,EditProfile,Edit,DeleteArt"                                  # + the profile reference of an entity written in / taken out
 
 
 def run(ctx, replay=None):
@@ -21,6 +22,7 @@ def run(ctx, replay=None):
               dict(shape="chain", max_env=2, flagsets="DefaultAndMissing", env="IssuerEnv"),     # + issuer edits
               dict(shape="chain", max_env=2, flagsets="DefaultAndMissing", env="ConfigEnv"),     # + configurations deleted / put back
               dict(shape="chain", max_env=2, flagsets="DefaultAndMissing", env="ProfileEnv"),    # + the profile file deleted / put back
+              dict(shape="chain", max_env=2, flagsets="DefaultAndMissing", env="SwitchEnv"),     # + an entity starts / stops using the profile
               # histories of any length in the design model (every user action, every flag set, every fault): random behaviours
               dict(shape="chain", max_env=0, flagsets="AllFlagSets", env="EverythingEnv", simulate="num=150,depth=80")]
         ex = [dict(shape="chain", max_env=2, flags="m,c,o", extra="a", faults=False),
@@ -29,7 +31,8 @@ def run(ctx, replay=None):
               dict(shape="chain", max_env=2, flags="m,c", faults=False, env="SetIssuer,Edit,DeleteArt,StripKey"),
               dict(shape="two", max_env=1, flags="m,c,o", faults=False, env=ISSUER),
               dict(shape="chain", max_env=3, flags="m,c", faults=False, env="Edit,RemoveConfig,AddConfig"),
-              dict(shape="chain", max_env=3, flags="m,c", faults=False, env=PROFILE)]
+              dict(shape="chain", max_env=3, flags="m,c", faults=False, env=PROFILE),
+              dict(shape="chain", max_env=2, flags="m,c", faults=False, env=SWITCH)]
     else:
         # measured (16 cores, loaded): 21.3 M distinct states in 90 min for eleven bounded configurations; the plan below keeps one
         # configuration per alphabet and shape family (~40 min); the two-roots shape is model-checked by C10 / C14
@@ -39,6 +42,7 @@ def run(ctx, replay=None):
               dict(shape="star", max_env=3, env="IssuerEnv"),
               dict(shape="chain", max_env=3, env="ConfigEnv"),
               dict(shape="chain", max_env=3, env="ProfileEnv", flagsets="NoAllFlagSets"),
+              dict(shape="star", max_env=3, env="SwitchEnv", flagsets="DefaultAndMissing"),
               dict(shape="chain", max_env=0, flagsets="AllFlagSets", env="EverythingEnv", simulate="num=4000,depth=100"),
               dict(shape="star", max_env=0, flagsets="AllFlagSets", env="EverythingEnv", simulate="num=2000,depth=100")]
         ex = [dict(shape="chain", max_env=3, flags="m,c,o", extra="a;c,e,m", faults=False),
@@ -52,6 +56,8 @@ def run(ctx, replay=None):
               dict(shape="chain", max_env=3, flags="m,c", faults=False, env=CONFIG),
               dict(shape="chain", max_env=4, flags="m,c", extra="a", faults=False, env=PROFILE),
               dict(shape="star", max_env=3, flags="m,c,o", faults=True, env=PROFILE),
+              dict(shape="chain", max_env=3, flags="m,c", extra="c,m,o", faults=False, env=SWITCH),
+              dict(shape="star", max_env=3, flags="m,c", faults=True, env="SetProfile,RemoveProfile,AddProfile"),
               dict(shape="star", max_env=3, flags="m,c", extra="c,m,o", faults=False, env="Edit,RemoveConfig,AddConfig,DeleteArt"),
               # random histories on the real code are cheap (4,000 histories of 12 steps: 12 s): many of them, all shapes
               dict(shape="chain", max_env=0, flags="m,c,o,e", extra="a", faults=True, random_walks=40000, walk_len=12, env=FULL),
